@@ -146,9 +146,16 @@ def run(F, rep, tier):
         check_evaluator(F, rep, cg, v, full, v in ASSIGN, mut_i, sym_i, insert_fn)
 
     for h, sites in sorted(shallow_sites.items()):
-        rep.bad("C05-R5", "%s:shallow-detach" % h.split("::")[-1],
-                "the value stored for a new binding comes from %s, which returns a plain clone of its argument (Ref cells are shared): the new name aliases the source variable; used at %s" % (h, sorted(sites)),
-                cg.bodies[h].where() if h in cg.bodies else "")
+        per = defaultdict(int)
+        for where_, ev_, sig in sorted(sites):
+            per[(ev_, sig)] += 1
+        for (ev_, sig), cnt in sorted(per.items()):
+            if ev_ == "fsm_declare":
+                rep.note("unconfirmed", "fsm_declare stores the result of the shallow %s for the declared machine variable (argument from [%s]); no program was found in which that value is another variable's cell (not reported)" % (h.split("::")[-1], sig))
+                continue
+            rep.bad("C05-R5", "%s:shallow-detach:%s:from[%s]:x%d" % (h.split("::")[-1], ev_, sig, cnt),
+                    "%s stores for a new binding the result of %s, which returns a plain clone of its argument (Ref cells are shared); the argument derives from [%s]: when that is the value of an existing variable, "
+                    "the new name aliases it (%d site(s))" % (ev_, h, sig, cnt), cg.bodies[h].where() if h in cg.bodies else "")
     # R6
     interp = [b for f, b in cg.bodies.items() if re.search(r"interpreter::Interpreter::interpret$", f)]
     rep.floor("C05-R6", "Interpreter::interpret", len(interp), 1)
@@ -175,6 +182,8 @@ def run(F, rep, tier):
         reach = cg.reach(roots)
         bad = sorted(f for f in reach if re.search(r"^std::process::(exit|abort)$", f))
         rep.check(not bad, "C05-R6", "evaluator:no-process-exit", "process exit/abort reachable from the evaluator: %s" % bad)
+    from rules.loopshape import scope_restored_on_every_exit
+    scope_restored_on_every_exit(F, rep, "C05-R7")
 
 
 shallow_sites = defaultdict(list)
@@ -283,7 +292,31 @@ def check_evaluator(F, rep, cg, variant, full, is_assign, mut_i, sym_i, insert_f
                     if any(x[0] == "arg" for x in rr) and not any(x[0] == "call" and not PASS_THROUGH.search(x[1]) and x[1] != r[1] for x in rr):
                         shallow.append(r[1])
             for h in sorted(set(shallow)):
-                shallow_sites[h].append("%s:%d" % (full.split("::")[-1], t["l"]))
+                # what is handed to the shallow helper at this site: the names of the calls its argument derives from
+                sigs = set()
+                for r in calls:
+                    if r[1] == h and len(r) > 2 and isinstance(r[2], int):
+                        ht = b.blocks[r[2]]["t"]
+                        for rr in sl.roots(ht["args"][0]) if ht.get("args") else []:
+                            if rr[0] == "call":
+                                nm = re.sub(r"<.*?>", "", rr[1])
+                                sigs.add(nm.split("::")[-1] if "::" in nm else nm)
+                            else:
+                                sigs.add(rr[0])
+                        # how many plain copies (moves / clones, no computing call in between) of a value reach the helper through named variables:
+                        # each is a way for an existing variable's cell to become the new binding's cell
+                        varlocals = {v[0]: k for k, v in b.vars.items() if v[1] == ""}
+                        feeding = sl.locals_feeding(ht["args"][0]) if ht.get("args") else set()
+                        copies = 0
+                        for l in sorted(feeding & set(varlocals)):
+                            for blk_, s_ in sl.defs.get(l, []):
+                                if s_.get("k") == "call":
+                                    if PASS_THROUGH.search(s_.get("f") or s_["tf"]):
+                                        copies += 1
+                                elif s_.get("rk") in ("use", "ref", "cast", "un") or s_.get("rk") is None:
+                                    copies += 1
+                        sigs.add("copies=%d" % copies)
+                shallow_sites[h].append(("%s:%d" % (full.split("::")[-1], t["l"]), full.split("::")[-1], ",".join(sorted(sigs))[:80]))
             if not shallow:
                 rep.ok("C05-R5", "%s:inserted-value-detached" % full.split("::")[-1], sample={"roots": sorted(map(str, calls))[:6]})
 
